@@ -160,6 +160,14 @@ def make_object(name):
         return ETagMatcher(["a", "b"])
     if name == "ifrange":
         return IfRange.parse('"a"')
+    if name == "noetag":            # the three "empty but not None" values a typed If-Range / Range setter accepts
+        from webob.etag import NoETag
+        return NoETag
+    if name == "ifrange_empty":     # what request.if_range returns when there is no If-Range header: IfRange(<ETag *>), str() == ""
+        from webob.request import BaseRequest
+        return BaseRequest({"REQUEST_METHOD": "GET"}).if_range
+    if name == "etag_empty":
+        return ETagMatcher([])
     if name == "timedelta":
         return datetime.timedelta(seconds=60)
     if name == "date":
@@ -1061,7 +1069,15 @@ def check_write(W, step, op, before, ret):
                                           "authorization"))
         if type(v) is object or n in VERBATIM and not isinstance(v, str):
             typed_ok = False
-        if v is None and n not in ("scheme", "http_version", "server_name", "server_port", "path_info", "upath_info",
+        if is_empty_typed(n, op[3]):
+            # converter.fset: serialize(v) is None -> the underlying setter removes the key
+            if key in env:
+                return ("write-lands:empty-value-not-removed", "step %d %r: the value has no header text, yet %s holds %r"
+                        % (step, op, key, env[key]))
+        elif isinstance(v, str) and v == "" and n in EMPTY_TEXT_STORED:
+            if env.get(key) != "":
+                return ("write-lands:empty-text-not-stored", "step %d %r: environ[%r] = %r" % (step, op, key, env.get(key)))
+        elif v is None and n not in ("scheme", "http_version", "server_name", "server_port", "path_info", "upath_info",
                                    "cache_control", "body_file_raw", "is_body_readable",
                                    "cookies", "host", "urlvars", "urlargs"):
             if key in env:
@@ -1262,6 +1278,26 @@ ATTR_VALUES = {
     "body_file": [{"stream": b.hex()} for b in BODY_POOL[:6]] + [{"bytesio": b.hex()} for b in BODY_POOL[:6]],
     "body_file_raw": [{"stream": BODY_POOL[2].hex()}, {"bytesio": BODY_POOL[1].hex()}],
 }
+# "empty but not None": values whose serializer (descriptors.serialize_range / serialize_if_range) answers None, which
+# converter.fset hands on to the environ_getter setter = the header key is REMOVED (found by running the unchanged code:
+# every other typed setter stores "" for "", i.e. the header stays present with empty text)
+EMPTY_TYPED = {
+    "range": ["", {"tuple": []}, [], {"obj": "noetag"}],
+    "if_range": ["", {"obj": "noetag"}, {"obj": "ifrange_empty"}, {"obj": "etag_empty"}],
+}
+NONEMPTY_WIRE = {"range": ["bytes=0-4", "bytes=5-", "items=1-2", "bytes=abc"],
+                 "if_range": ["\"a\"", "W/\"a\"", "Sun, 06 Nov 1994 08:49:37 GMT", "garbage"]}
+# typed attributes whose setter stores "" as "" (header present, empty text)
+EMPTY_TEXT_STORED = {"authorization", "if_match", "if_none_match", "accept", "accept_charset", "accept_encoding",
+                     "accept_language", "cache_control", "max_forwards", "content_length"}
+for _n, _l in EMPTY_TYPED.items():
+    ATTR_VALUES[_n] = ATTR_VALUES[_n] + [v for v in _l if v not in ATTR_VALUES[_n]]
+
+
+def is_empty_typed(n, spec):
+    return n in EMPTY_TYPED and spec in EMPTY_TYPED[n]
+
+
 DELETABLE = ["method", "content_length", "remote_user", "remote_host", "remote_addr", "query_string", "script_name",
              "uscript_name", "content_type", "host", "body", "body_file", "text", "json", "json_body", "accept",
              "accept_charset", "accept_encoding", "accept_language", "authorization", "cache_control", "if_match",
@@ -1395,6 +1431,9 @@ def rand_op(rng, focus=None):
         return ["side", rng.randrange(3)]
     w = rng.randrange(2)
     if fam == "attr":
+        if rng.random() < 0.2:      # the "empty but not None" class of typed write (rand_history puts the header there first)
+            n = rng.choice(sorted(EMPTY_TYPED))
+            return ["setattr", w, n, rng.choice(EMPTY_TYPED[n])]
         n = rng.choice(sorted(ATTR_VALUES))
         return ["setattr", w, n, rng.choice(ATTR_VALUES[n])]
     if fam == "body":
@@ -1630,6 +1669,12 @@ def rand_history(rng, maxlen, focus=None):
         if foci and o[0] in ("env_set", "env_del") and rng.random() < 0.8:
             k = rng.choice(["QUERY_STRING", "HTTP_COOKIE", "HTTP_CACHE_CONTROL", "CONTENT_TYPE"])
             o = ["env_set", k, rng.choice(ENV_KEYS[k])] if rng.random() < 0.85 else ["env_del", k]
+        if o[0] == "setattr" and is_empty_typed(o[2], o[3]) and rng.random() < 0.8:
+            # an empty typed write is decided on a request that already carries the header
+            if rng.random() < 0.5:
+                ops.append(["env_set", ATTR_KEY[o[2]], rng.choice(NONEMPTY_WIRE[o[2]])])
+            else:
+                ops.append(["setattr", rng.randrange(2), o[2], rng.choice(NONEMPTY_WIRE[o[2]][:2])])
         ops.append(o)
     return rand_envspec(rng), ops
 
@@ -1664,7 +1709,7 @@ def shrink(envspec, ops, key, **kw):
 
 # =========================================================================== correspondence with the Coq model
 IMPORTS = ["Webob.Lib.PyStr", "Webob.Lib.C01_Str", "Webob.Model.MultiDict", "Webob.Model.C01_EnvView",
-           "Webob.Model.C01_Tables"]
+           "Webob.Model.C01_Tables", "Webob.Model.C01_Converter"]
 
 # attribute -> (descriptor kind, environ key, default)
 ATTR_KIND = {
@@ -1681,6 +1726,9 @@ ATTR_KIND = {
     "accept_encoding": ("accept", "HTTP_ACCEPT_ENCODING", None), "accept_language": ("accept", "HTTP_ACCEPT_LANGUAGE", None),
     "content_type": ("ctype", "CONTENT_TYPE", None), "host": ("host", "HTTP_HOST", None),
     "cache_control": ("cc", "HTTP_CACHE_CONTROL", None),
+    # descriptors.converter over environ_getter, modelled on the values whose serializer answers None (None itself and the
+    # "empty but not None" class EMPTY_TYPED) and on plain non-empty If-Range text: Model/C01_Converter.v conv_fset
+    "range": ("conv", "HTTP_RANGE", None), "if_range": ("conv", "HTTP_IF_RANGE", None),
 }
 
 
@@ -1955,6 +2003,17 @@ def model_op(W, op):
         kind, key, _ = ATTR_KIND[n]
         v = decode_value(op[3]) if t == "setattr" else None
         ov = None
+        if kind == "conv":      # conv_fset k serialize (Some v) with serialize v = None  ==  OGetterSet k None
+            if t == "delattr":
+                return "(OGetterDel _ _ %s)" % cstr(key)
+            if v is None:
+                return "(conv_fset _ _ _ (fun _ : unit => None) %s None)" % cstr(key)
+            if is_empty_typed(n, op[3]):      # serialize_range: `if not value: return None`; serialize_if_range: `str(value) or None`
+                ser = "(ser_falsy_none (fun _ : unit => true) (fun _ => nil))" if n == "range" else "(ser_nonempty (fun _ : unit => nil))"
+                return "(conv_fset _ _ _ %s %s (Some tt))" % (ser, cstr(key))
+            if n == "if_range" and isinstance(v, str):
+                return "(conv_fset _ _ _ (ser_nonempty (fun s : str => s)) %s (Some %s))" % (cstr(key), cstr(v))
+            return None
         if t == "setattr":
             if kind == "int" and isinstance(v, int) and not isinstance(v, bool):
                 v = str(v)
@@ -2088,6 +2147,8 @@ def rand_model_op(rng):
                 or (kind == "cc" and isinstance(v, dict))]
         if kind in ("req", "host"):
             pool = [v for v in pool if v is not None]
+        if kind == "conv":
+            pool = [None] + EMPTY_TYPED[n] * 2 + (NONEMPTY_WIRE[n][:2] if n == "if_range" else [])
         return ["setattr", w, n, rng.choice(pool)]
     if fam == "del":
         n = rng.choice([a for a in MODEL_ATTRS_SET if a in DELETABLE])
@@ -2095,7 +2156,7 @@ def rand_model_op(rng):
     if fam == "env":
         k = rng.choice(["QUERY_STRING", "QUERY_STRING", "HTTP_COOKIE", "HTTP_COOKIE", "HTTP_CACHE_CONTROL", "HTTP_CACHE_CONTROL",
                         "CONTENT_TYPE", "HTTP_HOST", "HTTP_X_FOO", "HTTP_IF_MATCH", "SERVER_NAME", "HTTP_CONTENT_TYPE",
-                        "CONTENT_LENGTH", "HTTP_ACCEPT", "REQUEST_METHOD"])
+                        "CONTENT_LENGTH", "HTTP_ACCEPT", "REQUEST_METHOD", "HTTP_RANGE", "HTTP_IF_RANGE"])
         if rng.random() < 0.2:
             return ["env_del", k]
         pool = [v for v in ENV_KEYS[k] if k != "HTTP_COOKIE" or v != "a=caf\xc3\xa9" or True]
@@ -2137,7 +2198,7 @@ def rand_model_case(rng, maxlen):
             "set": []}
     for _ in range(rng.randrange(3)):
         k = rng.choice(["HTTP_COOKIE", "HTTP_CACHE_CONTROL", "CONTENT_TYPE", "HTTP_IF_MATCH", "HTTP_X_FOO", "HTTP_CONTENT_TYPE",
-                        "HTTP_CONTENT_LENGTH", "CONTENT_LENGTH"])
+                        "HTTP_CONTENT_LENGTH", "CONTENT_LENGTH", "HTTP_RANGE", "HTTP_IF_RANGE"])
         spec["set"].append([k, rng.choice(ENV_KEYS[k])])
     # configurations: the wrapper classes, Request.blank's keywords
     spec["classes"] = [rng.choice(CLASS_NAMES), rng.choice(CLASS_NAMES)]
@@ -2273,6 +2334,8 @@ def small_universe():
         ["GET", 1, 0, ["clear"]], ["GET", 0, "fresh", ["update", [["a", "1"]]]], ["GET", 1, "fresh", ["extend", []]],
         ["env_set", "HTTP_CONTENT_TYPE", "text/x"], ["hdr", 0, "fresh", ["set", "Content_Length", "7"]],
         ["hdr", 1, "fresh", ["clear"]], ["hdr", 0, "fresh", ["assign", [["Host", "h.example"], ["content_type", "a/b"]]]],
+        # empty-but-not-None typed writes (the initial environ of the sweep carries Range and If-Range)
+        ["setattr", 0, "if_range", ""], ["setattr", 1, "range", {"tuple": []}], ["setattr", 1, "if_range", {"obj": "ifrange_empty"}],
     ]
 
 
@@ -2341,7 +2404,11 @@ def strlib_cases(rng, n):
 MODELLED = [
     "webob.request:BaseRequest.__init__",                 # init: the wrapper keeps a reference to the environ
     "webob.descriptors:environ_getter",                   # GKey / GKeyReq, OGetterSet / OGetterDel / OReqSet
-    "webob.descriptors:converter",                        # fset path only: serialize, then the wrapped setter (int attributes)
+    "webob.descriptors:converter",                        # fset path only: serialize, then the wrapped setter (int attributes;
+                                                          # Model/C01_Converter.v conv_fset for range / if_range: a serializer
+                                                          # that answers None hands None on = the key is removed)
+    "webob.descriptors:serialize_if_range",               # ser_nonempty: `str(value) or None`
+    "webob.descriptors:serialize_range",                  # ser_falsy_none: the `if not value: return None` branch only
     "webob.etag:etag_property",                           # OEtagSet (None is stored), GKey on the raw value
     "webob.acceptparse:accept_property",                  # OAcceptSet (None = silent delete); same shape for the next three
     "webob.acceptparse:accept_charset_property",
@@ -2566,7 +2633,8 @@ def stage_oracle(ctx):
 
     U = small_universe()
     # the initial strings are in the universe too, so "prime, change through a view, put the old text back" has depth 2
-    inits = [{"kind": "blank", "path": "/?a=1", "set": [["HTTP_COOKIE", "a=1"], ["HTTP_CACHE_CONTROL", "max-age=5"]]}]
+    inits = [{"kind": "blank", "path": "/?a=1", "set": [["HTTP_COOKIE", "a=1"], ["HTTP_CACHE_CONTROL", "max-age=5"],
+                                                        ["HTTP_RANGE", "bytes=0-4"], ["HTTP_IF_RANGE", "\"v1\""]]}]
     depth = ctx.scale(2, 3)
     jobs = []
     for d in range(1, depth + 1):
@@ -2640,7 +2708,11 @@ def fill_evidence(ctx):
         "contexts plus random names.  oracle: every history of depth<=%d over a %d-operation universe (cache-focused getters), "
         "random histories (ordinary, configuration/shape-focused and outside-domain) over ALL public getters of both long-lived wrappers (%d getters, two read orders, lazy and eager "
         "priming) against a brand-new Request per getter, plus the write-lands check on every write; every counted case is a "
-        "distinct history with at least one write" % (maxlen, depth, len(U), len(ALL_GETTERS)))
+        "distinct history with at least one write.  Typed attribute writes draw from three value classes: a value with header "
+        "text, None, and 'empty but not None' (EMPTY_TYPED: a value whose serializer answers None -- range = ''/()/[]/NoETag, "
+        "if_range = ''/NoETag/IfRange of a header-less request/ETagMatcher([]); 20%% of random attribute writes, 80%% of them "
+        "preceded by a write that puts the header there; three operations of the exhaustive universe, whose initial environ "
+        "carries Range and If-Range): the key must be gone from the environ afterwards" % (maxlen, depth, len(U), len(ALL_GETTERS)))
     ctx.extra["exhaustive"] = False
     ctx.extra["getters_compared"] = ALL_GETTERS
     ctx.assume += [
